@@ -1,6 +1,7 @@
 (* C06 -- validity is structural: evaluation raises the invalid-expression error under every assignment of a
    structurally invalid expression and under none of a structurally valid one. *)
-From Ahb Require Import Model.Prelude Model.Grammar Gen.Gen_logic Model.Logic Model.EvalRC Model.Spec Proofs.C04_eval.
+From Ahb Require Import Model.Prelude Model.Grammar Gen.Gen_logic Model.Logic Model.EvalRC Model.EvalFC Model.EvalAhb Model.Spec Model.Keys Model.Validity
+  Proofs.C04_eval Proofs.C06_validity.
 
 Theorem C06_invalid_always : forall e, dom e = true -> valid e = false ->
   forall a rho, env_ok a rho e -> eval_rc rho e = Exn InvalidExpr.
@@ -11,3 +12,19 @@ Theorem C06_valid_never : forall e, dom e = true -> valid e = true ->
   forall a rho, env_ok a rho e -> eval_rc rho e <> Exn InvalidExpr.
 Proof. exact valid_never. Qed.
 Print Assumptions C06_valid_never.
+
+(* evaluation of a whole AHB expression (all parts) under any generated content evaluation result: a result if every part is
+   structurally valid, the invalid-expression error otherwise *)
+Theorem C06_ahb : forall hs fcs rcs g ps, gen_ok hs fcs rcs g -> ps <> [] -> Forall (part_expr_ok hs fcs rcs) ps ->
+  if forallb part_valid ps then exists r, eval_ahb (cer_of g) ps = Ok r else eval_ahb (cer_of g) ps = Exn InvalidExpr.
+Proof. exact eval_ahb_char. Qed.
+Print Assumptions C06_ahb.
+
+(* the validity check (try every generated content evaluation result; Model/Validity.v, generate from Model/Keys.v) returns
+   True exactly for the structurally valid expressions -- including the case without requirement/format keys, where nothing
+   is generated and nothing can be invalid *)
+Theorem C06_validity_check : forall hs fcs rcs ps, ps <> [] -> Forall (part_expr_ok hs fcs rcs) ps ->
+  NoDup hs -> NoDup fcs -> NoDup rcs -> ~ In fc_dummy fcs -> ~ In rc_dummy rcs ->
+  is_valid_tree ps hs fcs rcs = Ok (forallb part_valid ps).
+Proof. exact validity_check_decides. Qed.
+Print Assumptions C06_validity_check.
